@@ -10,7 +10,13 @@ import (
 // Rng is SplitMix64; every random choice of a run derives from one seed.
 type Rng struct{ s uint64 }
 
-func NewRng(seed uint64) *Rng { return &Rng{s: seed*0x9E3779B97F4A7C15 + 0x1234567} }
+// NewRng scrambles the seed before using it as the state: with state = a*seed+b consecutive seeds
+// would give the same stream shifted by one draw (scripts k and k+1 would share their choices).
+func NewRng(seed uint64) *Rng {
+	r := &Rng{s: seed ^ 0x1234567}
+	r.s = r.Next() ^ (r.Next() << 1)
+	return r
+}
 func (r *Rng) Next() uint64 {
 	r.s += 0x9E3779B97F4A7C15
 	z := r.s
@@ -94,7 +100,7 @@ var Streams = map[string]Stream{
 	"observers": {Name: "observers", Codes: [][]int{layoutSmall, layoutRel}, Caps: [][2]int{{1, 1}, {4, 2}}, Ops: 70,
 		Weights: weights(map[string]int{"obsnew": 10, "obsreg": 10, "obsunreg": 5, "emit": 6, "mapset": 6, "exbatch": 6, "setrelbatch": 4, "newbatch": 4, "removeentities": 4}), Invalid: 2, MaxEnt: 16, WithDump: true, Scenarios: 6},
 	"misuse": {Name: "misuse", Codes: [][]int{layoutSmall, layoutRel}, Caps: [][2]int{{1, 1}, {2, 2}}, Ops: 60,
-		Weights: weights(map[string]int{"probe": 12, "queryopen": 4, "queryclose": 4}), Invalid: 35, MaxEnt: 14, WithDump: true, Scenarios: 2},
+		Weights: weights(map[string]int{"probe": 12, "queryopen": 4, "queryclose": 4}), Invalid: 35, MaxEnt: 14, WithDump: true, Scenarios: 4},
 	"reset": {Name: "reset", Codes: [][]int{layoutSmall}, Caps: [][2]int{{1, 1}, {3, 2}}, Ops: 80,
 		Weights: weights(map[string]int{"reset": 5, "obsnew": 4, "obsreg": 5, "register": 5, "filternew": 6}), Invalid: 2, MaxEnt: 16, WithDump: true, Scenarios: 3},
 	"shrink": {Name: "shrink", Codes: [][]int{layoutSmall, layoutRel}, Caps: [][2]int{{1, 1}, {2, 1}, {8, 2}}, Ops: 70,
@@ -309,6 +315,26 @@ func (g *Gen) queryRels(fi int) [][2]int64 {
 	for _, c := range f.ids {
 		if g.isRel(c) && g.R.Chance(70) {
 			out = append(out, [2]int64{int64(c), g.pickTarget(g.R.Chance(g.St.Invalid))})
+		}
+	}
+	return out
+}
+
+// queryRelsMisuse: per-query targets as queryRels gives them, and (at the stream's misuse rate) a
+// target for a relation component the filter does not require: a typed filter rejects it when
+// the query is created, an unsafe query only fails once iteration reaches a table lacking it.
+func (g *Gen) queryRelsMisuse(fi int) [][2]int64 {
+	out := g.queryRels(fi)
+	if g.R.Chance(g.St.Invalid) {
+		f := g.S.Filters[fi]
+		var cand []int
+		for c := range g.S.IDs {
+			if g.isRel(c) && !contains(f.ids, c) {
+				cand = append(cand, c)
+			}
+		}
+		if len(cand) > 0 {
+			out = append(out, [2]int64{int64(cand[g.R.Intn(len(cand))]), g.pickTarget(false)})
 		}
 	}
 	return out
@@ -693,14 +719,14 @@ func (g *Gen) build(kind string) []int64 {
 		if !ok {
 			return nil
 		}
-		return cat([]int64{18, int64(fi)}, encPairs(g.queryRels(fi)))
+		return cat([]int64{18, int64(fi)}, encPairs(g.queryRelsMisuse(fi)))
 	case "queryopen":
 		fi, ok := g.filterIdx(false)
 		if !ok || len(g.openQueries) >= 6 {
 			return nil
 		}
 		g.openQueries[len(g.S.Queries)] = true
-		return cat([]int64{19, int64(fi)}, encPairs(g.queryRels(fi)))
+		return cat([]int64{19, int64(fi)}, encPairs(g.queryRelsMisuse(fi)))
 	case "querynext", "queryclose", "querycount", "queryat", "queryentity":
 		if len(g.S.Queries) == 0 {
 			return nil
